@@ -21,6 +21,7 @@ const (
 	FBinary = "binary" // NUL, 0xff, quotes, non-UTF-8 in keys and values
 	FWide   = "wide"   // 70..200 pairs, integer values (several batches at size 32)
 	FTies   = "ties"   // few distinct values, many duplicates
+	FRel    = "rel"    // values derived from their keys (upper(k), k, k+k, strlen(k), ...)
 )
 
 type Store struct {
@@ -125,6 +126,27 @@ func NewStore(r *rt.Rand, family string) *Store {
 		for i := 0; i < n; i++ {
 			ps = append(ps, Pair{K: fmt.Sprintf("k%03d", i), V: strconv.Itoa((i*7 + 3) % 50)})
 		}
+	case FRel:
+		n := r.Range(2, 40)
+		for i := 0; i < n; i++ {
+			k := numKey(r)
+			var v string
+			switch r.Intn(6) {
+			case 0:
+				v = asciiUp(k)
+			case 1:
+				v = k
+			case 2:
+				v = k + k
+			case 3:
+				v = strconv.Itoa(len(k))
+			case 4:
+				v = k + "," + asciiUp(k)
+			default:
+				v = "x"
+			}
+			ps = append(ps, Pair{K: k, V: v})
+		}
 	case FTies:
 		n := r.Range(3, 16)
 		vals := []string{"1", "2", "2", "3", "x", "x", "y", ""}
@@ -133,6 +155,16 @@ func NewStore(r *rt.Rand, family string) *Store {
 		}
 	}
 	return &Store{Family: family, Pairs: dedupSort(ps)}
+}
+
+func asciiUp(s string) string {
+	b := []byte(s)
+	for i, c := range b {
+		if c >= 'a' && c <= 'z' {
+			b[i] = c - 32
+		}
+	}
+	return string(b)
 }
 
 var keyPrefixes = []string{"k", "k1", "a", "ab", "b", "key", "m", "", "z"}
@@ -162,7 +194,7 @@ func Dense(n int, prefix string, f func(i int) string) []Pair {
 	return ps
 }
 
-var families = []string{FTiny, FNum, FFloat, FMixed, FBinary, FWide, FTies}
+var families = []string{FTiny, FNum, FFloat, FMixed, FBinary, FWide, FTies, FRel}
 
 func AnyFamily(r *rt.Rand) string { return families[r.Intn(len(families))] }
 
